@@ -43,8 +43,19 @@ theorem foldl_aor_nodup (xs fs : List Field) (h : (fs.map (·.name)).Nodup) :
   | nil => simpa using h
   | cons x xs ih => exact ih _ (aor_nodup fs x h)
 
-theorem flatten_names_nodup (t : Tree) : ((flatten t).map (·.name)).Nodup :=
-  foldl_aor_nodup _ [] (by simp)
+theorem flatten_names_nodup (t : Tree) : ((flatten t).map (·.name)).Nodup := by
+  unfold flatten
+  exact (foldl_aor_nodup _ [] (by simp)).sublist ((List.filter_sublist).map _)
+
+theorem flatten_sub (t : Tree) {f : Field} (h : f ∈ flatten t) : f ∈ (walkTop t).foldl appendOrReplace [] := by
+  unfold flatten at h; exact (List.mem_filter.mp h).1
+
+/-- the recursive-mapping test of the generator is the property's: STRUCT types of the two packages -/
+theorem isNamedIn_struct (t : Ty) (p : Pkg) (h : t.isNamedIn p = true) : t.isStructNamed = true := by
+  unfold Ty.isNamedIn at h
+  split at h
+  · rfl
+  · cases h
 
 theorem nodup_of_map_nodup {α β} (f : α → β) (l : List α) (h : (l.map f).Nodup) : l.Nodup := by
   induction l with
@@ -175,13 +186,13 @@ theorem funcStep_inv (f1 f2 : Field) (hp : (f1, f2) ∈ ps) (kf : Nat × Fn) (hk
     split
     · rename_i hc
       simp only [Bool.and_eq_true, beq_iff_eq] at hc
-      exact claimTo_inv h f1 f2 _ hp ⟨fn, hk, hc.1, hc.2⟩
+      exact claimTo_inv h f1 f2 _ hp ⟨fn, hk, hc.1.1, hc.1.2⟩
     · exact h
   unfold funcStep funcFrom
   split
   · rename_i hc
     simp only [Bool.and_eq_true, beq_iff_eq] at hc
-    exact claimFrom_inv h1 f1 f2 _ hp ⟨fn, hk, hc.1, hc.2⟩
+    exact claimFrom_inv h1 f1 f2 _ hp ⟨fn, hk, hc.1.1, hc.1.2⟩
   · exact h1
 
 theorem funcLoop_inv (f1 f2 : Field) (hp : (f1, f2) ∈ ps) (l : List (Nat × Fn)) (hl : ∀ x ∈ l, x ∈ fns)
@@ -195,32 +206,41 @@ theorem funcLoop_inv (f1 f2 : Field) (hp : (f1, f2) ∈ ps) (l : List (Nat × Fn
     · exact h2
     · exact ih (fun x hx => hl x (List.mem_cons_of_mem _ hx)) h2
 
-theorem subMap_inv (f1 f2 : Field) (hp : (f1, f2) ∈ ps) {st : St} (h : Inv conv fns ps w0D w0S st) :
-    Inv conv fns ps w0D w0S (subMap f1 f2 f1.ty f2.ty false st) := by
-  unfold subMap
+theorem subMap_inv' (f1 f2 : Field) (t1 t2 : Ty) (sl : Bool) (hp : (f1, f2) ∈ ps)
+    (hj1 : t1.strip.2.isNamedIn .src = true → t2.strip.2.isNamedIn .dest = true →
+      justified conv fns .src .dest ⟨f1, f2, if sl then .each t1.strip.1 t2.strip.1 else .sub t1.strip.1 t2.strip.1⟩)
+    (hj2 : t1.strip.2.isNamedIn .src = true → t2.strip.2.isNamedIn .dest = true →
+      justified conv fns .dest .src ⟨f2, f1, if sl then .each t2.strip.1 t1.strip.1 else .sub t2.strip.1 t1.strip.1⟩)
+    {st : St} (h : Inv conv fns ps w0D w0S st) :
+    Inv conv fns ps w0D w0S (subMap f1 f2 t1 t2 sl st) := by
+  have h1 : Inv conv fns ps w0D w0S (subTo f1 f2 t1 t2 sl st) := by
+    unfold subTo
+    split
+    · rename_i hc
+      simp only [Bool.and_eq_true] at hc
+      exact claimTo_inv h f1 f2 _ hp (hj1 hc.1.1 hc.1.2)
+    · exact h
+  unfold subMap subFrom
   split
   · rename_i hc
     simp only [Bool.and_eq_true] at hc
-    apply claimFrom_inv _ f1 f2 _ hp
-    · simp [justified, hc.1, hc.2]
-    · apply claimTo_inv h f1 f2 _ hp
-      simp [justified, hc.1, hc.2]
-  · exact h
+    exact claimFrom_inv h1 f1 f2 _ hp (hj2 hc.1.1 hc.1.2)
+  · exact h1
+
+theorem subMap_inv (f1 f2 : Field) (hp : (f1, f2) ∈ ps) {st : St} (h : Inv conv fns ps w0D w0S st) :
+    Inv conv fns ps w0D w0S (subMap f1 f2 f1.ty f2.ty false st) := by
+  apply subMap_inv' f1 f2 _ _ _ hp _ _ h
+  · intro a b; simp [justified, a, b]
+  · intro a b; simp [justified, a, b]
 
 theorem subListMap_inv (f1 f2 : Field) (hp : (f1, f2) ∈ ps) {st : St} (h : Inv conv fns ps w0D w0S st) :
     Inv conv fns ps w0D w0S (subListMap f1 f2 st) := by
   unfold subListMap
   split
   · rename_i e1 e2 he1 he2
-    unfold subMap
-    split
-    · rename_i hc
-      simp only [Bool.and_eq_true] at hc
-      apply claimFrom_inv _ f1 f2 _ hp
-      · exact ⟨e2, e1, he2, he1, by simp [hc.1, hc.2]⟩
-      · apply claimTo_inv h f1 f2 _ hp
-        exact ⟨e1, e2, he1, he2, by simp [hc.1, hc.2]⟩
-    · exact h
+    apply subMap_inv' f1 f2 _ _ _ hp _ _ h
+    · intro a b; exact ⟨e1, e2, he1, he2, by simp [a, b]⟩
+    · intro a b; exact ⟨e2, e1, he2, he1, by simp [a, b]⟩
   · exact h
 
 theorem mismatchStep_inv (fl : List Fn) (hf : fns = indexed fl) (p : Field × Field) (hp : p ∈ ps) {st : St}
@@ -235,22 +255,26 @@ theorem matchStep_inv (p : Field × Field) (hp : p ∈ ps) {st : St}
   have h1 : Inv conv fns ps w0D w0S (matchTo conv f1 f2 st) := by
     unfold matchTo
     split
-    · rename_i hs
-      exact claimTo_inv h f1 f2 _ hp (by simpa [justified, matchType] using hs)
+    · exact h
     · split
       · rename_i hs
-        exact claimTo_inv h f1 f2 _ hp (by simpa [justified] using hs)
-      · exact h
+        exact claimTo_inv h f1 f2 _ hp (by simpa [justified, matchType] using hs)
+      · split
+        · rename_i hs
+          exact claimTo_inv h f1 f2 _ hp (by simpa [justified] using hs)
+        · exact h
   unfold matchStep matchFrom
   split
-  · rename_i hs
-    exact claimFrom_inv h1 f1 f2 _ hp (by
-      have : f1.ty = f2.ty := by simpa [matchType] using hs
-      simp [justified, this])
+  · exact h1
   · split
     · rename_i hs
-      exact claimFrom_inv h1 f1 f2 _ hp (by simpa [justified] using hs)
-    · exact h1
+      exact claimFrom_inv h1 f1 f2 _ hp (by
+        have : f1.ty = f2.ty := by simpa [matchType] using hs
+        simp [justified, this])
+    · split
+      · rename_i hs
+        exact claimFrom_inv h1 f1 f2 _ hp (by simpa [justified] using hs)
+      · exact h1
 
 theorem foldl_inv (step : St → Field × Field → St)
     (hstep : ∀ p ∈ ps, ∀ st, Inv conv fns ps w0D w0S st → Inv conv fns ps w0D w0S (step st p))
